@@ -182,6 +182,25 @@ def judge_binpacking(ctx, setup, kv, secs, live, case):
                 pk.dtype != inst.dtype or pk.instance is not inst:
             ctx.violation("from_log-packing-differs", "Packing.from_log("
                           "file, instance) != logged packing", case)
+            return
+        # ... and made into a result record (the route for instances that
+        # are not resources): objectives and bin bounds of the record
+        from moptipy.evaluation.end_results import EndResult
+
+        from moptipyapps.binpacking2d.packing_result import (
+            from_packing_and_end_result,
+        )
+        fes = int(num(kv["STATE.totalFEs"]))
+        er = EndResult(algo, inst.name, fname, kv.get("SETUP.g.name"),
+                       setup["seed"], got, int(num(kv["STATE.lastImprovementFE"])),
+                       0, fes, 1, None, fes, None)
+        pr = from_packing_and_end_result(er, pk)
+        ctx.count("result_records_for_custom_instances")
+        if dict(pr.objectives) != po.objective_values(desc, rows):
+            ctx.violation("from_single_log-objectives-differ",
+                          f"record for a custom instance: "
+                          f"{dict(pr.objectives)}", case)
+        judge_bin_bounds(ctx, dict(pr.bin_bounds), inst, desc, case)
         return
     pk = Packing.from_log(setup["log"])
     if wb.rows_of(pk) != rows or pk.n_bins != k or pk.dtype != inst.dtype \
@@ -241,9 +260,12 @@ def judge_binpacking(ctx, setup, kv, secs, live, case):
         ctx.violation("from_single_log-end-result-differs",
                       f"best_f {er.best_f}, fes {er.total_fes}, seed "
                       f"{er.rand_seed}", case)
+    judge_bin_bounds(ctx, dict(pr.bin_bounds), inst, desc, case)
+
+
+def judge_bin_bounds(ctx, bb, inst, desc, case):
     A = desc["W"] * desc["H"]
     geo = -(-sum(w * h * r for w, h, r in desc["items"]) // A)
-    bb = dict(pr.bin_bounds)
     damv = bb.get("bins.lowerBound.damv")
     if bb.get("bins.lowerBound") != inst.lower_bound_bins or \
             bb.get("bins.lowerBound.geometric") != max(1, geo) or \
